@@ -71,7 +71,7 @@ Definition excerpt_ok (lc : list N) (k : nat) (ex : list N) (col : Z) : Prop :=
     lc = pre ++ w ++ r ++ post /\ ex = w ++ r /\ col = swidth w /\
     length pre + length w <= k' <= length pre + length w + 3 /\
     length ex <= 64 /\ length w <= 51 /\
-    (pre = [] \/ 45 <= length w) /\ (post = [] \/ 61 <= length ex).
+    (pre = [] \/ 45 <= length w) /\ (length post <= 3 \/ 61 <= length ex).
 
 (* For a well-formed UTF-8 line: all four pieces are well formed (no character is cut), r starts with
    the very character that contains the offending byte, so the caret (after w) stands under it. *)
